@@ -4,7 +4,7 @@ import json
 ID = "C06"
 HARNESS_TEST = "TestC06"
 COQ_MODEL = ["C06/Check.v"]
-COQ_PROOF_DEPS = ["C06/Proofs.v"]
+COQ_PROOF_DEPS = ["C06/Proofs.v", "C06/ProofsExact.v"]
 COQ_OBLIG = ["C06/Property.v"]
 CASES_HEADER = "Require Import Nib.C06.Model Nib.C06.Spec Nib.C06.Check."
 CASE_TYPE = "case"
